@@ -192,6 +192,7 @@ func runPtrCtors(o *hx.Out) {
 				pp.Elem().Set(reflect.ValueOf(ptrPool()[pi]))
 				inp := pp.Interface()
 				before := storex.DeepHash(inp)
+				look := storex.Canon(pp.Elem().Interface())
 				out, e, ran := parseVia(s, entry, inp)
 				if !ran || e != nil {
 					continue
@@ -200,19 +201,9 @@ func runPtrCtors(o *hx.Out) {
 				if storex.DeepHash(inp) != before {
 					u = "W"
 				}
-				same := "-"
-				if out != nil && reflect.TypeOf(out) == reflect.TypeOf(inp) {
-					same = "d"
-					if reflect.ValueOf(out).Pointer() == pp.Pointer() {
-						same = "s"
-					}
-				}
-				want := "s"
-				if same == "-" {
-					want = "-"
-				}
+				same, want, cm := ptrVerdict(o, pp, look, out)
 				hit = true
-				o.Emit(fmt.Sprintf("c15 ptr %s %d %s #%s.ctor pool=%d %s", entry, ow, want, c.name, pi, typ(s)), u+" "+same)
+				o.Emit(fmt.Sprintf("c15 ptr %s %d %s #%s.ctor pool=%d%s %s", entry, ow, want, c.name, pi, cm, typ(s)), u+" "+same)
 				o.Count("ptr:ctor:" + entry)
 			}
 		}
